@@ -55,6 +55,13 @@ inline std::vector<T> multi_channel_refine_weights(
         sum_of_new_weights += new_weights[i];
     }
 
+    // if the adjustment data does not contain any information, for instance because every sampled
+    // value was zero, there is nothing to refine - keep the weights
+    if (sum_of_new_weights == T())
+    {
+        return weights;
+    }
+
     T new_sum = T();
 
     for (T& weight : new_weights)
